@@ -219,7 +219,8 @@ def builtin_history():
 
 def default_object_history():
     """mutable module variables that are the DEFAULT VALUE of a parameter (of a plain helper and of a memento function)
-    are mutated in place: the function object keeps that very object, so its description changes with it"""
+    are mutated in place: the function object keeps that very object, so its description changes with it; modifier clones
+    made before and after the mutation must follow"""
     def fn(name, kind, module, const, refs=()):
         return {"name": name, "kind": kind, "module": module, "const": const, "default": None, "kwdefault": None, "setconst": None, "tupconst": None,
                 "sset": None, "pair": None, "nested": None, "explicit": None, "hidden": None, "shadow": None, "refs": [list(r) for r in refs]}
@@ -231,17 +232,24 @@ def default_object_history():
                                     fn("m2", "m", "b", 30, [("m1", "bare")])]}
     spec0 = copy.deepcopy(spec)
     events, specs, descs = [], [], []
+    extras = {}
 
     def step(evs, d, q):
         events.extend(evs)
         events.append({"op": "query", "names": q})
-        specs.append((copy.deepcopy(spec), {}, q))
+        specs.append((copy.deepcopy(spec), dict(extras), q))
         descs.append(d)
     step([], "rebind variable G0 (no change, first query)", ["m0", "m1", "m2"])
     vprog.node(spec, "G0")["value"] = {"k": 104}
     step([{"op": "mutate", "mod": "a", "name": "G0", "value": 104}], "mutate variable G0 in place (default value of a parameter of helper h0)", ["m0"])
+    extras["clone0"] = "m1"
+    step([{"op": "clone", "fn": "m1", "how": "force_local", "as": "clone0"}], "create force_local() clone of m1", ["clone0"])
     vprog.node(spec, "G1")["value"] = [1, 2, 7]
-    step([{"op": "mutate", "mod": "b", "name": "G1", "value": 7}], "mutate variable G1 in place (default value of a parameter of m1)", ["m2", "m1"])
+    step([{"op": "mutate", "mod": "b", "name": "G1", "value": 7}], "mutate variable G1 in place (default value of a parameter of m1)", ["clone0", "m2"])
+    extras["clone1"] = "m1"
+    vprog.node(spec, "G1")["value"] = [1, 2, 7, 8]
+    step([{"op": "mutate", "mod": "b", "name": "G1", "value": 8}, {"op": "clone", "fn": "m1", "how": "ignore_result", "as": "clone1"}],
+         "mutate variable G1 in place then create ignore_result() clone of m1", ["clone1", "m1", "clone0"])
     return spec0, events, specs, descs
 
 
